@@ -632,8 +632,8 @@ rt_gen_wellformed(vh_rng *r, struct rt_desc *d, int allow_fail)
         a->base = cursor;
         a->size = i == large ? 18 + (uint32_t)vh_below(r, 31) : 1 + (uint32_t)vh_below(r, 8);
         unsigned f = (unsigned)vh_below(r, 20);
-        a->readable = !(f == 0 || f == 1);      /* write-only */
-        a->writeable = !(f == 2 || f == 3 || f == 4); /* read-only */
+        a->readable = !(f == 0 || f == 1 || f == 7);      /* write-only; 7: neither flag */
+        a->writeable = !(f == 2 || f == 3 || f == 4 || f == 7); /* read-only */
         a->skipdef = (f == 5 || f == 6);
         a->custom = vh_chance(r, 3, 10);
         a->has_write = a->custom ? !vh_chance(r, 1, 5) : 1;
